@@ -125,6 +125,10 @@ def _fmt(q, system, order, in_radians):
     return np.deg2rad(a) if in_radians else a.copy()
 
 
+def _small_list(a, limit=12):
+    return np.asarray(a, float).ravel()[:limit].round(6).tolist()
+
+
 class _Rec:
     def __init__(self, cfg, inputs):
         self.cfg, self.inputs, self.fails, self.cases = cfg, inputs, [], 0
@@ -246,6 +250,22 @@ def _exercise(t, tree, system, metric, el, qs, order, rec, rng, full=True):
         ok, ret = call("query_rad", t.query, _fmt(qs, system, order, True), k=k, return_distance=True, in_radians=True)
         if ok:
             _check_knn(rec, "query_rad", ret, D, k, 1.0, tolm, extra={"k": k, "batched": True, "in_radians": True})
+    # the same float64 query array used for two calls (query, then query_radius / query): both answers are for the points supplied
+    qa = np.ascontiguousarray(_fmt(qs, system, order, False), dtype=np.float64)
+    qkeep = qa.copy()
+    ok, ret = call("query_deg", t.query, qa, k=k, return_distance=True)
+    rec.cases += 1
+    if not np.array_equal(qa, qkeep):
+        rec.fail("query_points_left_as_supplied", "query_deg", "the caller's query array was modified by query()", _small_list(qa), _small_list(qkeep),
+                 {"k": k, "batched": True})
+    ok, ret = call("query_deg", t.query, qa, k=k, return_distance=True)
+    if ok:
+        _check_knn(rec, "query_deg", ret, D, k, deg if sph else 1.0, tolm, extra={"k": k, "batched": True, "query_array": "reused from an earlier query"})
+    q1 = np.array(_fmt([qs[0]], system, order, False)[0], dtype=np.float64)
+    ok, ret = call("query_deg", t.query, q1, k=1)
+    ok, ret = call("query_deg", t.query, q1, k=1)
+    if ok:
+        _check_knn(rec, "query_deg", ret, D[0:1], 1, deg if sph else 1.0, tolm[0:1], extra={"k": 1, "batched": False, "query_array": "reused from an earlier query"})
     # single points (1-d input, list input, one-row 2-d input)
     for j in ([0, 3, 4, 7, 8] if full else [0, 4]):
         if j >= nq:
